@@ -10,8 +10,8 @@ suite=$(cargo test --workspace --no-fail-fast --offline 2>&1 | grep -E "^test re
 suite_fail=$(cargo test --workspace --no-fail-fast --offline 2>&1 | grep -cE "^test result: FAILED|error(\[|:)")
 cp "$S/demo.rs" tests/seed_demo.rs
 printf '\n[[test]]\nname = "seed_demo"\npath = "tests/seed_demo.rs"\n' >> Cargo.toml
-timeout 900 cargo test --offline --features "block_on executor signals stream futures-io" --test seed_demo >/tmp/seed_with.log 2>&1; with=$?
+timeout 900 cargo test --offline --features "block_on executor signals stream futures-io" --test seed_demo >"$S/verify_with.log" 2>&1; with=$?
 git apply -R "$P"
-timeout 900 cargo test --offline --features "block_on executor signals stream futures-io" --test seed_demo >/tmp/seed_without.log 2>&1; without=$?
+timeout 900 cargo test --offline --features "block_on executor signals stream futures-io" --test seed_demo >"$S/verify_without.log" 2>&1; without=$?
 git checkout -q -- . ; git clean -fdq -e target -e Cargo.lock
 echo "RESULT $S suite='$suite' suite_failures=$suite_fail demo_with_patch_exit=$with demo_without_patch_exit=$without"
